@@ -157,6 +157,23 @@ class BirthDeath(Distribution):
         e = torch.exp(-A * t)
         ratio = ((1.0 + B) - e * (1.0 - B)) / ((1.0 + B) + e * (1.0 - B))
         p = (self.lambda_ + self.mu + self.psi - A * ratio) / (2.0 * self.lambda_)
+        # 1 - p from non-negative terms only (1 - p computed from p loses all its
+        # digits when the survival probability is small)
+        x = self.lambda_ - self.mu - self.psi
+        four_lambda_psi = 4.0 * self.lambda_ * self.psi
+        # (denominators of the branch that is not taken are replaced by one: 0/0
+        # there would poison the gradient)
+        ones = torch.ones_like(A)
+        A_plus_x = torch.where(
+            x < 0.0, four_lambda_psi / torch.where(x < 0.0, A - x, ones), A + x
+        )
+        A_minus_x = torch.where(
+            x > 0.0, four_lambda_psi / torch.where(x > 0.0, A + x, ones), A - x
+        )
+        one_minus_e = -torch.expm1(-A * t)
+        self._one_minus_p = (
+            2.0 * self.psi * one_minus_e + self.rho * (A_plus_x + e * A_minus_x)
+        ) / (A_minus_x + e * A_plus_x + 2.0 * self.rho * self.lambda_ * one_minus_e)
         return p, A, B
 
     def log_prob(self, node_heights: torch.Tensor):
@@ -177,7 +194,7 @@ class BirthDeath(Distribution):
         log_p = log_q0[..., 0]
         # condition on sampling at least one individual
         if self.survival:
-            log_p -= torch.log(1.0 - p[..., 0])
+            log_p -= torch.log(self._one_minus_p[..., 0])
 
         # calculate l(x) with l(t)=1 iff t_{i-1} <= t < t_i
         x = self.origin - node_heights[..., taxa_shape[-1] :]
